@@ -317,6 +317,9 @@ func CheckOrder(c Case, o Outcome) *Violation {
 				return &Violation{"unselected-node-run", fmt.Sprintf("callback ran for unselected %s", c.describe(e.Node))}
 			}
 			for d := range tdeps[e.Node] {
+				if c.isAlias(d) {
+					continue // the property speaks about targets; when an alias node itself is marked done is internal
+				}
 				if !ended[d] {
 					return &Violation{"released-before-dependency-finished", fmt.Sprintf("%s released at %v (event #%d) before its transitive dependency %s finished successfully", c.describe(e.Node), e.At, e.Seq, c.describe(d))}
 				}
@@ -327,6 +330,9 @@ func CheckOrder(c Case, o Outcome) *Violation {
 				return &Violation{"started-twice", fmt.Sprintf("%s started %d times", c.describe(e.Node), started[e.Node])}
 			}
 			for d := range tdeps[e.Node] {
+				if c.isAlias(d) {
+					continue
+				}
 				if !ended[d] {
 					return &Violation{"started-before-dependency-finished", fmt.Sprintf("%s started at %v before its transitive dependency %s finished successfully", c.describe(e.Node), e.At, c.describe(d))}
 				}
